@@ -186,6 +186,22 @@ model_read(struct rep * m, uint8_t * out, size_t len, int failflag, int * nreq, 
 	return 0;
 }
 
+/*
+ * The generator's statics as the program starts must say "not instantiated": otherwise the first request is served from
+ * Key = V = 0 without any entropy ("no call ever succeeds with output produced from an unseeded state").  Returns 1
+ * after reporting.  Replay: {"case":"drbg-initial"}.
+ */
+static int
+initial_state_bad(const uint8_t * snap)
+{
+	if (snap[68] == 0) return 0;
+	edge_failed = 1;
+	if (replaying) { printf("  VIOLATION C11:drbg:initial-state:instantiated: the generator claims to be instantiated at program start\n"); return 1; }
+	vf_violation("C11:drbg:initial-state:instantiated", "{\"case\":\"drbg-initial\"}", "the generator's statics say \"instantiated\" at program start (reseed_counter %u, Key/V %s): the first crypto_entropy_read() would return output produced without any entropy",
+	    (unsigned)(snap[64] | (snap[65] << 8) | ((unsigned)snap[66] << 16) | ((unsigned)snap[67] << 24)), snap[0] | snap[31] | snap[32] | snap[63] ? "non-zero" : "all zero (first/last bytes)");
+	return 1;
+}
+
 struct res { int done, failed, nreq, reseeded, skipped; uint8_t key[KEYLEN]; struct rep rep; };
 static struct res * results; static size_t rescap;
 struct unit { uint32_t state, op; };
@@ -307,7 +323,7 @@ drbg_search(void)
 	rescap = 1 << 14; results = vf_shalloc(rescap * sizeof(*results));
 	/* initial state: the statics as the program starts */
 	memset(&r0, 0, sizeof(r0)); verif_drbg_get(r0.snap);
-	if (r0.snap[68] != 0) vf_engine_error("generator is instantiated at program start");
+	if (initial_state_bad(r0.snap)) { vf_count("drbg.states", 1); return; }	/* reported; nothing is explored from a start state the model does not have */
 	mkkey(key, &r0); esh_initial(&S, key, KEYLEN, 0xffff); set_rep(0, &r0);
 	level_lo = 0;
 	while (level_lo < S.E.n && !vf_deadline_hit()) {
@@ -361,6 +377,7 @@ static struct {
 	int rec[80], nopt[80], depth;		/* choices taken in this execution */
 	int devs, bound;
 	int opened, open_failed, closes_ok, closed, use_after_close, calls_after_failed_open, oversize;
+	int toodeep, diverged;			/* this execution (search only): more than 80 diverted calls / an answer the search recorded for this position does not exist now */
 	size_t delivered; int src_failed;	/* stream position; 1 once the source answered 0 / -1 */
 	uint8_t * buf;
 } os;
@@ -369,10 +386,17 @@ static int
 os_choose(int n, const char * what, char * note, size_t notelen)
 {
 	int c;
-	if (os.depth >= 80) vf_engine_error("os: execution too deep");
+	/*
+	 * Two presuppositions of the stateless depth-first enumeration.  Neither is something the property forbids (code
+	 * that reads byte by byte with retries, or that adapts its chunk size from call to call, may be correct), so they
+	 * stay engine errors - but raised by the search loop after the execution (os_enum_broken), and only if no violation
+	 * has been recorded: an engine error would discard the violations found so far.  The call is finished with default
+	 * answers.  In a replay both mean a bad replay file.
+	 */
+	if (os.depth >= 80) { if (replaying) vf_engine_error("os: execution too deep"); os.toodeep = 1; return 0; }
 	if (os.devs >= os.bound) n = 1;
 	c = os.depth < os.preflen ? os.prefix[os.depth] : 0;
-	if (c >= n) vf_engine_error("os: replayed choice %d out of range at %s", c, what);
+	if (c >= n) { if (replaying) vf_engine_error("os: replayed choice %d out of range at %s", c, what); os.diverged = 1; c = 0; }
 	if (c) os.devs++;
 	os.rec[os.depth] = c; os.nopt[os.depth] = n; os.depth++;
 	(void)note; (void)notelen;
@@ -446,7 +470,7 @@ os_execute(void)
 {
 	int rc, expect_ok; size_t k; char ch[600]; size_t o = 0; int i;
 	os.depth = 0; os.devs = 0; os.opened = os.open_failed = os.closes_ok = os.closed = os.use_after_close = os.calls_after_failed_open = os.oversize = 0;
-	os.delivered = 0; os.src_failed = 0; edge_failed = 0;
+	os.delivered = 0; os.src_failed = 0; edge_failed = 0; os.toodeep = os.diverged = 0;
 	ch[0] = 0; for (i = 0; i < os.preflen && o + 12 < sizeof(ch); i++) o += (size_t)snprintf(ch + o, sizeof(ch) - o, "%s%d", i ? "," : "", os.prefix[i]);
 	if (OSLEN == 48) vf_setcase("os dev=%d choices=%s", os.bound, ch); else vf_setcase("os dev=%d len=%zu choices=%s", os.bound, OSLEN, ch);
 	os.buf = malloc(OSLEN); memset(os.buf, 0x5C, OSLEN);
@@ -466,6 +490,20 @@ os_execute(void)
 	{ uint8_t oc[4]; oc[0] = (uint8_t)rc; oc[1] = (uint8_t)os.delivered; oc[2] = (uint8_t)os.src_failed; oc[3] = (uint8_t)os.closes_ok; vf_distinct("osentropy.outcomes", vf_hash64(oc, 4, 3)); }
 	return edge_failed;
 }
+/*
+ * After an execution of the search: 1 if the enumeration cannot go on (see os_choose).  The depth-first successor is
+ * not defined then; with violations already recorded the enumeration just stops (not exhaustive, the violations are
+ * the result), otherwise the machinery cannot decide this code.
+ */
+static int
+os_enum_broken(void)
+{
+	if (!os.toodeep && !os.diverged) return 0;
+	if (vf_nviolations() > 0) return 1;
+	if (os.toodeep) vf_engine_error("os: execution too deep (more than 80 open/read/close calls for one request)");
+	vf_engine_error("os: with the answers of the previous execution the code made a different system call (choice out of range): its calls are not a function of the scripted answers, the stateless enumeration cannot decide it");
+}
+
 static void
 os_search(uint64_t unit)
 {
@@ -476,6 +514,7 @@ os_search(uint64_t unit)
 	for (;;) {
 		if ((n++ & 1023) == 0 && vf_deadline_hit()) return;
 		os_execute();
+		if (os_enum_broken()) return;
 		if (n % 4001 == 7) { char ch[300]; size_t o = 0; int i; ch[0] = 0; for (i = 0; i < os.depth && o + 12 < sizeof(ch); i++) o += (size_t)snprintf(ch + o, sizeof(ch) - o, "%s%d", i ? "," : "", os.rec[i]); vf_sample("osentropy: answers [%s] (0 = everything asked for) -> %zu bytes delivered, result and descriptor discipline checked", ch, os.delivered); }
 		/* next choice vector in depth-first order */
 		for (d = os.depth - 1; d >= 0; d--) if (os.rec[d] + 1 < os.nopt[d]) break;
@@ -505,7 +544,14 @@ os_search_deep(uint64_t unit)
 	for (;;) {
 		if ((n++ & 1023) == 0 && vf_deadline_hit()) return;
 		os_execute();
-		if (os.depth < fix) vf_engine_error("os: execution shorter than the unit's prefix");
+		if (os_enum_broken()) return;
+		/*
+		 * The code did not make the calls this unit's fixed answers are for (no open / no read after open).  If the
+		 * execution was reported as a violation that is the finding and the unit stops; otherwise nothing was
+		 * observed that the property forbids (a call that fails without asking the source) and the enumeration is
+		 * not what the unit claims: engine error.
+		 */
+		if (os.depth < fix) { if (edge_failed) return; vf_engine_error("os: execution shorter than the unit's prefix"); }
 		if (n % 400009 == 7) { char ch[300]; size_t o = 0; int i; ch[0] = 0; for (i = 0; i < os.depth && o + 12 < sizeof(ch); i++) o += (size_t)snprintf(ch + o, sizeof(ch) - o, "%s%d", i ? "," : "", os.rec[i]); vf_sample("osentropy: %zu-byte request, answers [%s] (0 = everything asked for) -> %zu bytes delivered, result and descriptor discipline checked", OSLEN, ch, os.delivered); }
 		for (d = os.depth - 1; d >= fix; d--) if (os.rec[d] + 1 < os.nopt[d]) break;
 		if (d < fix) break;
@@ -523,12 +569,17 @@ do_replay(const char * js)
 	if (p == NULL) vf_engine_error("replay: no case");
 	p += 8;
 	replaying = 1;
-	if (strncmp(p, "os ", 3) == 0) {
+	if (strncmp(p, "drbg-initial", 12) == 0) {
+		uint8_t snap[SNAPLEN];
+		verif_drbg_get(snap);
+		printf("replay: the generator's statics at program start: instantiated=%d reseed_counter=%u\n", snap[68], (unsigned)(snap[64] | (snap[65] << 8)));
+		initial_state_bad(snap);
+	} else if (strncmp(p, "os ", 3) == 0) {
 		const char * c = strstr(p, "choices=");
 		if (sscanf(p, "os dev=%d", &os.bound) != 1 || c == NULL) vf_engine_error("replay: cannot parse %s", p);
 		{ const char * lp = strstr(p, " len="); if (lp != NULL && lp < c) OSLEN = (size_t)atoi(lp + 5); if (OSLEN < 1 || OSLEN > 48) vf_engine_error("replay: bad request size"); }
 		os.preflen = 0;
-		for (c += 8; *c && *c != '"'; ) { os.prefix[os.preflen++] = atoi(c); while (*c && *c != ',' && *c != '"') c++; if (*c == ',') c++; }
+		for (c += 8; *c && *c != '"' && os.preflen < 80; ) { os.prefix[os.preflen++] = atoi(c); while (*c && *c != ',' && *c != '"') c++; if (*c == ',') c++; }
 		printf("replay entropy_read(%zu) from util/entropy.c with %d scripted answers\n", OSLEN, os.preflen);
 		os_execute();
 	} else {
